@@ -163,6 +163,15 @@ def opsBf (a : Array String) : Option String :=
     let Φ := cmat a (2 + 2 * D) D
     let w := getMvdrVector Float (fun A b => vecFn (D := D) (solveVec A b)) (vecFn (D := D) av) (matFn (D := D) Φ)
     some (fmtVec w)
+  | "mvdrstack" =>
+    -- mvdrstack K F D <atf: K·F·D> <noise: F·D·D>      (whole stack, indexing done by the model)
+    let K := tokNat a 1
+    let F := tokNat a 2
+    let D := tokNat a 3
+    let atf : Fin K → Fin F → Fin D → CF := fun k f d => cx a 4 ((k.val * F + f.val) * D + d.val)
+    let noise : Fin F → Fin D → Fin D → CF := stackTok a (4 + 2 * K * F * D)
+    let w := mvdrStack Float (fun A b => vecFn (D := D) (solveVec A b)) atf noise
+    some (fmtC ((List.finRange K).flatMap fun k => (List.finRange F).flatMap fun f => (List.finRange D).map fun d => w k f d))
   | "mvdru" =>
     -- mvdru D <a> <u>         (u = the real solver's result)
     let D := tokNat a 1
@@ -231,9 +240,7 @@ def opsBf (a : Array String) : Option String :=
       let X : Fin F → Fin (n+1) → Fin (n+1) → CF := stackTok a 4
       let N : Fin F → Fin (n+1) → Fin (n+1) → CF := stackTok a (4 + sz)
       let ph : Fin F → Fin (n+1) → Fin (n+1) → CF := stackFn phi
-      let ref := refChannel (fun f => soudenMat (ph f) eps) X N eps
-      -- `soudenAuto` evaluated with the reference channel shared (same definition, computed once)
-      let w := fun f => souden (ph f) ref eps
+      let (ref, w) := soudenAuto ph X N eps
       some (toString ref.val ++ " " ++ fmtC ((List.finRange F).flatMap fun f => (List.finRange (n+1)).map fun d => w f d))
   | "wmwfauto" =>
     -- wmwfauto F D mu tiny <Φxx> <Φnn>
@@ -249,8 +256,7 @@ def opsBf (a : Array String) : Option String :=
       let X : Fin F → Fin (n+1) → Fin (n+1) → CF := stackTok a 5
       let N : Fin F → Fin (n+1) → Fin (n+1) → CF := stackTok a (5 + sz)
       let ph : Fin F → Fin (n+1) → Fin (n+1) → CF := stackFn phi
-      let ref := refChannel (fun f => wmwfFilter mu (ph f)) X N tiny
-      let w := fun f => wmwf mu (ph f) ref
+      let (ref, w) := wmwfAuto mu ph X N tiny
       some (toString ref.val ++ " " ++ fmtC ((List.finRange F).flatMap fun f => (List.finRange (n+1)).map fun d => w f d))
   | "gev" =>
     -- gev D <Φxx> <Φnn>   → top generalised eigenvalue (1 float) then the selected eigenvector
@@ -287,6 +293,25 @@ def opsBf (a : Array String) : Option String :=
     let Φ := cmat a 2 D
     let v := cvec a (2 + 2 * D * D) D
     some (fmtMat (rankOne Float (matFn (D := D) Φ) (vecFn (D := D) v)))
+  | "gevsel" =>
+    -- gevsel D <vals: D floats> <vecs: D·D complex>    selection step on the real solver's output
+    let D := tokNat a 1
+    match D with
+    | 0 => none
+    | n+1 =>
+      let vals : Fin (n+1) → Float := fun i => tokFloat a (2 + i.val)
+      let vecs := cmat a (2 + (n+1)) (n+1)
+      some (fmtVec (gevSelect (n := n) (D := n+1) vals (fun d i => vecs.at d.val i.val)))
+  | "pcasel" =>
+    -- pcasel D <vals> <vecs>    → eigenvalue, eigenvector picked by get_pca
+    let D := tokNat a 1
+    match D with
+    | 0 => none
+    | n+1 =>
+      let vals : Fin (n+1) → Float := fun i => tokFloat a (2 + i.val)
+      let vecs := cmat a (2 + (n+1)) (n+1)
+      let (v, lam) := pcaSelect (n := n) vals (fun d i => vecs.at d.val i.val)
+      some (fmtFloats [lam] ++ " " ++ fmtVec v)
   | "rank1pca" =>
     -- rank1pca D <Φ>     get_pca_rank_one_estimate with the driver's own eigen-solver
     let D := tokNat a 1
